@@ -7,11 +7,24 @@ Description
 All exceptions exposed by the Vtl engine.
 """
 
+import threading
 from typing import Any, List, Optional
 
 from vtlengine.Exceptions.messages import centralised_messages
 
-dataset_output = None
+
+class _OutputContext(threading.local):
+    """Name of the output dataset of the statement being analysed, per calling thread."""
+
+    dataset_output: Optional[str] = None
+
+
+_context = _OutputContext()
+
+
+def set_dataset_output(name: Optional[str]) -> None:
+    """Record the output dataset the current thread is working on (used in error messages)."""
+    _context.dataset_output = name
 
 
 class VTLEngineException(Exception):
@@ -45,6 +58,7 @@ class SemanticError(VTLEngineException):
     comp_code = None
 
     def __init__(self, code: str, comp_code: Optional[str] = None, **kwargs: Any) -> None:
+        dataset_output = _context.dataset_output
         if dataset_output:
             message = (
                 centralised_messages[code]["message"].format(**kwargs)
@@ -71,6 +85,7 @@ class RunTimeError(VTLEngineException):
         **kwargs: Any,
     ) -> None:
         message = centralised_messages[code]["message"].format(**kwargs)
+        dataset_output = _context.dataset_output
         if dataset_output:
             message += self.output_message + str(dataset_output)
 
@@ -167,6 +182,7 @@ class DataLoadError(VTLEngineException):
         **kwargs: Any,
     ) -> None:
         message = centralised_messages[code]["message"].format(**kwargs)
+        dataset_output = _context.dataset_output
         if dataset_output:
             message += self.output_message + " " + str(dataset_output)
         else:
